@@ -21,45 +21,57 @@ theorem isort_length (le : α → α → Bool) (l : List α) : (isort le l).leng
 theorem mem_isort {le : α → α → Bool} {l : List α} {a : α} : a ∈ isort le l ↔ a ∈ l :=
   (isort_perm le l).mem_iff
 
-theorem insertBy_pairwise (le : α → α → Bool)
-    (trans : ∀ a b c, le a b = true → le b c = true → le a c = true)
-    (total : ∀ a b, (le a b || le b a) = true)
-    (a : α) (l : List α) (h : l.Pairwise (fun x y => le x y = true)) :
+/-- sortedness, for a comparison that is transitive and total on the elements satisfying `P` (e.g. NaN-free costs). -/
+theorem insertBy_pairwise_on (le : α → α → Bool) (P : α → Prop)
+    (trans : ∀ a b c, P a → P b → P c → le a b = true → le b c = true → le a c = true)
+    (total : ∀ a b, P a → P b → (le a b || le b a) = true)
+    (a : α) (l : List α) (ha : P a) (hl : ∀ x ∈ l, P x) (h : l.Pairwise (fun x y => le x y = true)) :
     (insertBy le a l).Pairwise (fun x y => le x y = true) := by
   induction l with
   | nil => simp [insertBy]
   | cons b l ih =>
     simp only [insertBy]
     have hb := List.pairwise_cons.mp h
+    have hPb : P b := hl b List.mem_cons_self
+    have hl' : ∀ x ∈ l, P x := fun x hx => hl x (List.mem_cons_of_mem _ hx)
     split
     · rename_i hab
       refine List.pairwise_cons.mpr ⟨?_, h⟩
       intro c hc
       rcases List.mem_cons.mp hc with rfl | hc
       · exact hab
-      · exact trans _ _ _ hab (hb.1 c hc)
+      · exact trans _ _ _ ha hPb (hl' c hc) hab (hb.1 c hc)
     · rename_i hab
       have hba : le b a = true := by
-        have := total a b
+        have := total a b ha hPb
         simp only [Bool.or_eq_true] at this
         rcases this with h' | h'
         · exact absurd h' hab
         · exact h'
-      refine List.pairwise_cons.mpr ⟨?_, ih hb.2⟩
+      refine List.pairwise_cons.mpr ⟨?_, ih hl' hb.2⟩
       intro c hc
       have : c ∈ a :: l := (insertBy_perm le a l).mem_iff.mp hc
       rcases List.mem_cons.mp this with rfl | hc
       · exact hba
       · exact hb.1 c hc
 
+theorem isort_pairwise_on (le : α → α → Bool) (P : α → Prop)
+    (trans : ∀ a b c, P a → P b → P c → le a b = true → le b c = true → le a c = true)
+    (total : ∀ a b, P a → P b → (le a b || le b a) = true) (l : List α) (hl : ∀ x ∈ l, P x) :
+    (isort le l).Pairwise (fun x y => le x y = true) := by
+  induction l with
+  | nil => simp [isort]
+  | cons a l ih =>
+    have hl' : ∀ x ∈ l, P x := fun x hx => hl x (List.mem_cons_of_mem _ hx)
+    exact insertBy_pairwise_on le P trans total a _ (hl a List.mem_cons_self)
+      (fun x hx => hl' x ((isort_perm le l).mem_iff.mp hx)) (ih hl')
+
 /-- the output is sorted, for every transitive and total comparison. -/
 theorem isort_pairwise (le : α → α → Bool)
     (trans : ∀ a b c, le a b = true → le b c = true → le a c = true)
     (total : ∀ a b, (le a b || le b a) = true) (l : List α) :
-    (isort le l).Pairwise (fun x y => le x y = true) := by
-  induction l with
-  | nil => simp [isort]
-  | cons a l ih => exact insertBy_pairwise le trans total a _ ih
+    (isort le l).Pairwise (fun x y => le x y = true) :=
+  isort_pairwise_on le (fun _ => True) (fun a b c _ _ _ => trans a b c) (fun a b _ _ => total a b) l (fun _ _ => trivial)
 
 theorem insertBy_of_forall_le (le : α → α → Bool) (a : α) (l : List α) (h : ∀ b ∈ l, le a b = true) :
     insertBy le a l = a :: l := by
